@@ -17,6 +17,7 @@ import (
 	"filippo.io/age/xverif/internal/strm"
 	"filippo.io/age/xverif/internal/vk"
 	"filippo.io/age/xverif/props/armrd"
+	"filippo.io/age/xverif/props/armwr"
 	"filippo.io/age/xverif/props/c02"
 )
 
@@ -101,6 +102,13 @@ func Run(tier string) {
 	} else {
 		armrd.Run(run, "armor-reader-faults", armrd.Config(1, 0, 8, 1, "{1, 48, 100}", 8, true, true), "", 0)
 		armrd.Run(run, "armor-reader-faults-all-seqs", armrd.Config(0, 0, 4, 1, "{1, 48}", 8, true, true), "", 0)
+	}
+	// the armoring writer as a machine (ArmorWrite.tla): every call of the destination failing, wholly or partly, for
+	// good or once, under every history of writes and closes
+	if run.Thorough() {
+		armwr.Run(run, "armor-writer-faults", armwr.Config("{0, 1, 2, 3, 48, 50, 800}", 3, 2, 8, `{"none", "one", "half", "allbut1"}`, true))
+	} else {
+		armwr.Run(run, "armor-writer-faults", armwr.Config("{0, 1, 3, 48, 50}", 3, 1, 7, `{"none", "one", "allbut1"}`, true))
 	}
 	run.Finish()
 }
